@@ -165,6 +165,25 @@ pub open spec fn under_ro_of(ro_roots: Set<PathV>, p: PathV) -> bool {
     exists|r: PathV| #[trigger] ro_roots.contains(r) && r.is_prefix_of(p)
 }
 
+/// C01 for one directory: the file bound to a valid key name in a configured directory holds bytes supplied for that key.
+pub proof fn lemma_entry_supplied(w: World, base: PathV, name: Seq<u8>)
+    requires
+        w.valid(),
+        valid_key(name),
+        w.configured_dir(base),
+        w.files.contains_key(child(base, name)),
+    ensures
+        w.supplied.contains((name, w.inode_at(child(base, name)).content)),
+{
+    lemma_child(base, name);
+    let p = child(base, name);
+    if w.cache_dirs.contains(base) {
+        assert(w.is_entry(p));
+    } else {
+        assert(w.is_ro_entry(p));
+    }
+}
+
 /// What a directory listing looks like (assumption about readdir): readable items carry the name
 /// of a distinct existing child; `None` stands for an item the OS failed to return.
 pub open spec fn listing_of(l: Seq<Option<Seq<u8>>>, w: World, dir: PathV) -> bool {
@@ -237,10 +256,33 @@ impl World {
     /// The crash/reader invariant (C01 C02 C03 C19): whatever is visible under a key name is a
     /// read-only file whose bytes are a value some writer supplied for that key.
     pub open spec fn valid(self) -> bool {
-        forall|p: PathV| #[trigger] self.files.contains_key(p) && self.is_entry(p) ==> {
+        &&& forall|p: PathV| #[trigger] self.files.contains_key(p) && self.is_entry(p) ==> {
             &&& !self.inode_at(p).writable
             &&& self.supplied.contains((base_name(p), self.inode_at(p).content))
         }
+        &&& self.ro_valid()
+    }
+
+    /// p is named like a cache entry directly inside a directory under a read-only root.
+    pub open spec fn is_ro_entry(self, p: PathV) -> bool {
+        p.len() > 0 && self.under_ro(parent(p)) && valid_key(base_name(p))
+    }
+
+    /// ENVIRONMENT ASSUMPTION about read-only roots (C01): they are Kismet cache directories populated by other
+    /// writers, so whatever is visible there under a key name holds bytes some writer supplied for that key.  (We
+    /// never mutate anything under a read-only root: every mutating stub demands `!under_ro`.)
+    pub open spec fn ro_valid(self) -> bool {
+        forall|p: PathV| #[trigger] self.files.contains_key(p) && self.is_ro_entry(p) ==> self.supplied.contains((base_name(p), self.inode_at(p).content))
+    }
+
+    /// No name a reader could look up binds `ino`: it may be written without anyone seeing partial content.
+    pub open spec fn invisible(self, ino: InodeId) -> bool {
+        forall|q: PathV| #[trigger] self.files.contains_key(q) && self.files[q] == ino ==> !self.in_cache_namespace(q) && !self.is_ro_entry(q)
+    }
+
+    /// The directory `base` is configured: a read-write cache directory or a directory under a read-only root.
+    pub open spec fn configured_dir(self, base: PathV) -> bool {
+        self.cache_dirs.contains(base) || self.under_ro(base)
     }
 
     /// Every link to p's inode is private to us (so changing the inode cannot be seen by anyone).
